@@ -61,7 +61,7 @@ func TestVerifC34HTTPCredentials(t *testing.T) {
 	t.Cleanup(kit.Flush)
 
 	rapid.Check(t, func(t *rapid.T) {
-		kind := rapid.SampledFrom([]string{"basic", "bearer-userpass", "bearer-token", "none"}).Draw(t, "kind")
+		kind := rapid.SampledFrom([]string{"basic", "bearer-userpass", "bearer-token", "none", "bearer-token-colons"}).Draw(t, "kind")
 		var header string
 		var want auth.Credentials
 		nontrivial := false
@@ -78,6 +78,17 @@ func TestVerifC34HTTPCredentials(t *testing.T) {
 			want.Pass = c34Text(0, true).Draw(t, "pass")
 			header = "Bearer " + want.User + ":" + want.Pass
 			nontrivial = strings.ContainsAny(want.User+want.Pass, " =.")
+		case "bearer-token-colons":
+			// 'Bearer user:pass' has exactly one colon; a bearer value with two or more colons (an URN, an
+			// opaque token) is a token and must be returned exactly (seeded change C34-s1)
+			n := rapid.IntRange(3, 5).Draw(t, "parts")
+			parts := make([]string, n)
+			for i := range parts {
+				parts[i] = c34Text(0, true).Draw(t, "part")
+			}
+			want.Token = strings.Join(parts, ":")
+			header = "Bearer " + want.Token
+			nontrivial = true
 		case "bearer-token":
 			want.Token = c34Token().Draw(t, "token")
 			header = "Bearer " + want.Token
